@@ -50,10 +50,10 @@ def clear (s : RStr) : RStr := { s with chars := [] }
 def stableReserve (s : RStr) (n : Nat) : RStr := s.grow n
 
 /-- `babylon::resize_uninitialized(str, n)`: size becomes `n`, the new characters are not
-written (their values are not modelled: the driver prints only length and capacity) -/
-def resizeUninit (s : RStr) (n : Nat) : RStr :=
+written by the call; `fill` is what the caller then stores there (the harness writes `'u'`) -/
+def resizeUninit (s : RStr) (n : Nat) (fill : Nat) : RStr :=
   let s := s.grow n
-  { s with chars := s.chars.take n ++ List.replicate (n - s.chars.length) 0 }
+  { s with chars := s.chars.take n ++ List.replicate (n - s.chars.length) fill }
 
 abbrev Meta := Nat
 
